@@ -25,6 +25,7 @@ def run(ctx):
     P = semcheck.gen_programs(ctx.seed * 7919 + 51, ctx.pick(80, 900), "strat", p_edge=True)
     P += common.family_small(ctx.pick(40, 500), ctx.seed + 5000)
     P += common.cyclic_family(ctx.pick(60, 800), ctx.seed + 5100, evidence=1.0)
+    P += common.ad_family(ctx.pick(80, 1000), ctx.seed + 5200)
     vecs = vectors(rng, ctx.pick(4, 28))
     pairs = set()
 
